@@ -48,7 +48,7 @@ fn check_one_bestmove() {
 
 /// `go` in one of its forms on an engine that may already have searched (warm tables), with the
 /// deadline of a timed search falling after poll `stop_at` (concrete per harness).
-///   form 0: go depth D (D = 1..=maxd, symbolic)      form 1: go movetime N
+///   form 0: go depth D (D = maxd, concrete per harness)      form 1: go movetime N
 ///   form 2: go wtime N btime N (any N: the reserve makes budgets of 0 ms possible)
 fn c03_case(b: usize, l: usize, form: u8, stop_at: u32, warm: bool, maxd: u8) {
     setup_game(b, l);
@@ -67,10 +67,9 @@ fn c03_case(b: usize, l: usize, form: u8, stop_at: u32, warm: bool, maxd: u8) {
     // number would force the global unwinding bound up to str::parse's digit loop
     let n = crate::h_time::any_num_1digit();
     if form == 0 {
-        let d = sym::u8(); sym::assume(d >= 1 && d <= maxd);
-        let ds = if d == 1 { "1" } else if d == 2 { "2" } else { "3" };
+        // the depth is concrete per harness (a symbolic choice of the token would be a symbolic string)
+        let ds = if maxd == 1 { "1" } else if maxd == 2 { "2" } else { "3" };
         u::go(&mut f, &["go", "depth", ds]);
-        vcover!(d == maxd, "deepest depth");
     } else if form == 1 {
         u::go(&mut f, &["go", "movetime", n.s()]);
     } else {
